@@ -9,6 +9,13 @@ history job: {"mods": [modspec], "custom": [passspec], "steps": [step], "only": 
            | {"op": "edit", "mod": index, "what": str}
            | {"op": "edit", "what": "retarget", "mod": parent index, "old": index, "to": index}   every instance of `old` in `mod` -> `to`
   only     = run the edits before step k and call k alone (what a fresh process gives for that call)
+  keep     = (with only) build just these modules: the process in which nothing but the design of the call ever existed
+  install  = how the custom pass list is made: "scratch" Elaborator(passes=[...]) | "mutate" e = Elaborator.default();
+             e.passes.insert(k, X); set_elaborator(e) | "inplace" the_global_elaborator.passes.insert(k, X); every call
+             ends with reset_elaborator()
+  modspec "borrow" = {"from": owner index, "what": sig|slice|port|binst|bref|pref}: fault "borrow" connects an instance of
+             this module to an object that belongs to ANOTHER module (a design error, reported by Orphanage)
+  passspec "also" = further modules in which the injected pass would raise, were it (wrongly) still installed
 Only the public hdl21 API is used to build, edit, elaborate and export; the class-level caches and the failure record are
 READ (never written) after each call.
 """
@@ -50,8 +57,12 @@ def bundle_type():
 def build(job):
     B = bundle_type()
     specs = job["mods"]
+    keep = job.get("keep")
     mods = []
-    for sp in specs:
+    for si, sp in enumerate(specs):
+        if keep is not None and si not in keep:
+            mods.append(None)
+            continue
         m = h.Module(name=sp["name"]) if sp["name"] is not None else h.Module()
         m.a = h.Input()
         m.b = h.Input(width=2)
@@ -63,6 +74,8 @@ def build(job):
         mods.append(m)
     R = lambda: h.R(r=1)
     for mi, (sp, m) in enumerate(zip(specs, mods)):
+        if m is None:
+            continue
         for i, (kind, ci) in enumerate(sp["kids"]):
             child = mods[ci]
             if kind == "inst":
@@ -117,9 +130,36 @@ def build(job):
             # an anonymous bundle lacking a member of the child's bundle port (needs a `bport` child at kid 0)
             x = m.instances.get("i0") or m.instarrays.get("i0")
             x.connect("bp", h.AnonymousBundle(x=m.s))
-        elif ft is not None and ft not in ("cycle", "unnamed"):
+        elif ft is not None and ft not in ("cycle", "unnamed", "borrow"):
             raise ValueError(ft)
+    # faults that reach into ANOTHER module: made when everything else is built
+    for sp, m in zip(specs, mods):
+        if m is not None and sp.get("fault") == "borrow":
+            borrow(m, mods[sp["borrow"]["from"]], sp["borrow"]["what"])
     return mods
+
+
+def borrow(m, owner, what):
+    """an instance of `m` connected to something that belongs to `owner`"""
+    R = lambda: h.R(r=1)
+    if what == "binst":       # a Bundle instance of the owner on a bundle-valued port of m's first child
+        x = m.instances.get("i0") or m.instarrays.get("i0")
+        x.connect("bp", owner.bb)
+        return
+    # named to sort before every instance of the owner: what leaks into the owner's design by NAME shows too
+    r9 = m.add(h.Instance(of=R(), name="a9")); r9.connect("n", m.s)
+    if what == "sig":
+        r9.connect("p", owner.s)
+    elif what == "slice":
+        r9.connect("p", owner.t[0])
+    elif what == "port":
+        r9.connect("p", owner.a)
+    elif what == "bref":      # a member of a Bundle instance of the owner
+        r9.connect("p", owner.bb.x)
+    elif what == "pref":      # a port of an instance of the owner
+        r9.connect("p", owner.r0.n)
+    else:
+        raise ValueError(what)
 
 
 def edit(mods, e):
@@ -147,6 +187,12 @@ def edit(mods, e):
     elif w == "anonmissing":
         x = m.instances.get("i0") or m.instarrays.get("i0")
         x.connect("bp", h.AnonymousBundle(x=m.s, y=m.t))
+    elif w == "borrow":
+        if "a9" in m.instances:
+            m.a9.connect("p", m.s)
+        else:
+            x = m.instances.get("i0") or m.instarrays.get("i0")
+            x.connect("bp", m.bi0)
     elif w == "unnamed":
         m.name = e.get("name", "Named")
     elif w == "addref":            # two more resistors, one connected to a port of the other (a port reference to resolve)
@@ -165,8 +211,10 @@ def make_custom(job, mods):
     passes = list(Elaborator.default().passes)
     keys = [None] * len(passes)
     inserts = []
+    ops = []
     for ps in job.get("custom", []):
-        target = mods[ps["target"]]
+        target = [mods[ps["target"]]] + [mods[a] for a in ps.get("also", [])]
+        target = [t for t in target if t is not None]
         msg = ps["msg"]
         xcls = EXC[ps.get("exc", "exc")]
         if ps["kind"] == "raiser":
@@ -175,7 +223,9 @@ def make_custom(job, mods):
                     REWRITES_MODULES = rewrites
 
                     def elaborate_module(self, module):
-                        if module is target:
+                        if any(module is t for t in target):
+                            if xcls is RuntimeError:
+                                self.fail(msg)      # as the built-in passes report: with the hierarchical path
                             raise xcls(msg)
                         return module
                 return Raiser
@@ -192,8 +242,9 @@ def make_custom(job, mods):
                     _count = 0
 
                     def elaborate_module(self, module):
-                        if module is target:
+                        if any(module is t for t in target):
                             self._in_target = True
+                            self._count = 0
                         try:
                             return super().elaborate_module(module)
                         finally:
@@ -206,17 +257,41 @@ def make_custom(job, mods):
                                 raise xcls(msg)
                         return super().flatname(segments, avoid=avoid, maxlen=maxlen)
                 return Half
-            passes[idx[0]] = mk()
+            cls = mk()
+            passes[idx[0]] = cls
             keys[idx[0]] = ps["key"]
+            ops.append(("replace", base, cls))
     for at, key, cls in sorted(inserts, key=lambda t: -t[0]):
         passes.insert(at, cls)
         keys.insert(at, key)
-    return passes, keys
+        ops.append(("insert", at, cls))
+    return passes, keys, ops
+
+
+def apply_ops(lst, ops):
+    """what a designer writes to derive a pass list from the default one: `lst[lst.index(Base)] = Sub`, `lst.insert(k, X)`"""
+    for op, where, cls in ops:
+        if op == "replace":
+            lst[lst.index(where)] = cls
+        else:
+            lst.insert(where, cls)
+
+
+def install(custom, how):
+    if how == "mutate":         # the default elaborator, edited, installed
+        e = Elaborator.default()
+        apply_ops(e.passes, custom[2])
+        set_elaborator(e)
+    elif how == "inplace":      # the installed (default) elaborator edited where it is
+        reset_elaborator()
+        apply_ops(sys.modules["hdl21.elab.elab"].the_global_elaborator.passes, custom[2])
+    else:                       # a list built from scratch
+        set_elaborator(Elaborator(passes=list(custom[0])))
 
 
 # ------------------------------------------------------------------------------------------------ observation
 def observe(mods, classes):
-    ix = {id(m): i for i, m in enumerate(mods)}
+    ix = {id(m): i for i, m in enumerate(mods) if m is not None}
     done, pend = {}, {}
     for key, cls in classes.items():
         c = cls.CLASS_LEVEL_CACHE
@@ -224,19 +299,24 @@ def observe(mods, classes):
         pend[key] = sorted(ix[id(m)] for m in c.pending if id(m) in ix)
     failed = {}
     for i, m in enumerate(mods):
+        if m is None:
+            continue
         e = getattr(m, "_elab_failure", None)
         if e is not None:
             failed[str(i)] = exc(e)
-    elab = [i for i, m in enumerate(mods) if getattr(m, "_elaborated", None) is not None]
+    elab = [i for i, m in enumerate(mods) if m is not None and getattr(m, "_elaborated", None) is not None]
     return dict(done=done, pend=pend, failed=failed, elab=elab)
 
 
 def kids_now(mods):
     """who instantiates whom right now, in the order elaborate_module_base visits (public containers)"""
-    ix = {id(m): i for i, m in enumerate(mods)}
+    ix = {id(m): i for i, m in enumerate(mods) if m is not None}
     out = []
     for m in mods:
         ks = []
+        if m is None:
+            out.append(ks)
+            continue
         for ctr in (m.instances, m.instarrays, m.instbundles):
             for x in ctr.values():
                 if isinstance(x.of, h.Module) and id(x.of) in ix:
@@ -245,14 +325,26 @@ def kids_now(mods):
     return out
 
 
-def do_call(step, mods, custom):
+def do_call(step, mods, custom, how, keyof):
     tops = [mods[i] for i in step["tops"]]
     arg = tops if len(tops) != 1 or step.get("aslist") else tops[0]
-    if step["elab"] == "custom":
-        set_elaborator(Elaborator(passes=custom[0]))
-    else:
-        reset_elaborator()
+    installed = None
     try:
+        if step["elab"] == "custom":
+            install(custom, how)
+        else:
+            reset_elaborator()
+        # READ: the pass list this call runs with
+        installed = [keyof.get(id(c), "?" + c.__name__) for c in sys.modules["hdl21.elab.elab"].the_global_elaborator.passes]
+        return dict(call_inner(step, arg, mods), installed=installed)
+    except BaseException as e:         # a KeyboardInterrupt ends a call as much as a design error does
+        return dict(err=exc(e), installed=installed)
+    finally:
+        reset_elaborator()
+
+
+def call_inner(step, arg, mods):
+    if True:
         if step["entry"] == "elaborate":
             h.elaborate(arg)
             return dict(ok="", mods=[])
@@ -263,13 +355,10 @@ def do_call(step, mods, custom):
         data = pkg.SerializeToString(deterministic=True)
         byname = {}
         for i, m in enumerate(mods):
-            byname.setdefault(m.name, []).append(i)
+            if m is not None:
+                byname.setdefault(m.name, []).append(i)
         names = [pm.name.split(".")[-1] for pm in pkg.modules]
         return dict(ok=hashlib.sha256(data).hexdigest()[:14], mods=[byname.get(n, [-1])[0] for n in names], names=names)
-    except BaseException as e:         # a KeyboardInterrupt ends a call as much as a design error does
-        return dict(err=exc(e))
-    finally:
-        reset_elaborator()
 
 
 def history(job):
@@ -279,15 +368,20 @@ def history(job):
     classes = {}
     for c in default:
         classes.setdefault(c.__name__, c)
-    for c, k in zip(*custom):
+    for c, k in zip(custom[0], custom[1]):
         if k is not None:
             classes[k] = c
+    keyof = {id(c): k for k, c in classes.items()}
+    how = job.get("install", "scratch")
     out = []
     only = job.get("only")
     for k, st in enumerate(job["steps"]):
         if st["op"] == "edit":
             try:
                 # how many pass classes have completed the edited module so far (0 = it is as it was built)
+                if mods[st["mod"]] is None:
+                    out.append(dict(edit="skipped"))
+                    continue
                 lv = sum(1 for c in set(classes.values()) if mods[st["mod"]] in c.CLASS_LEVEL_CACHE.done)
                 n = edit(mods, st)
                 out.append(dict(edit="ok" if n != 0 else "noop", levels=lv, n=n))
@@ -298,7 +392,7 @@ def history(job):
             out.append(None)
             continue
         kids = kids_now(mods)
-        r = do_call(st, mods, custom)
+        r = do_call(st, mods, custom, how, keyof)
         r["kids"] = kids
         r.update(observe(mods, classes))
         out.append(r)
